@@ -505,6 +505,56 @@ static Res safe(const std::function<RCP<const Basic>()> &f)
     return r;
 }
 
+// class signature of a mismatch: descend to the smallest sub-AST that fails on its own (minimal printing), name it by its
+// operator and the kinds of its operands
+static bool same_res(const Res &want, const Res &got)
+{
+    if (want.threw || got.threw)
+        return want.threw && got.threw && want.exc == got.exc;
+    return want.k == got.k;
+}
+static bool sub_fails(const Ast &a, const Menu &m, int i)
+{
+    Toks t;
+    emit(a, m, i, false, t);
+    std::string s = join(t, 0);
+    Res want = safe([&] { return build(a, m, i, false); });
+    Res got = safe([&] { return parse(s); });
+    if (same_res(want, got))
+        return false;
+    Res alt = safe([&] { return build(a, m, i, true); }); // a failure explained by the leading-zero class is not a new one
+    return !same_res(alt, got);
+}
+static int shrink(const Ast &a, const Menu &m, int i)
+{
+    const Node &n = a.n[i];
+    for (int ch : {n.a, n.b})
+        if (ch >= 0 && a.n[ch].t != 'L' && sub_fails(a, m, ch))
+            return shrink(a, m, ch);
+    for (int ch : {n.a, n.b})
+        if (ch >= 0 && a.n[ch].t == 'L' && sub_fails(a, m, ch))
+            return ch;
+    return i;
+}
+static std::string kind1(const Ast &a, const Menu &m, int i)
+{
+    const Node &n = a.n[i];
+    static const char *kn[] = {"int", "float", "id", "juxt"};
+    static const char *un[] = {"neg", "pos", "ipow", "ipow"};
+    static const char *bn[] = {"add", "sub", "mul", "div", "pow", "pow"};
+    return n.t == 'L' ? kn[m.leaves[n.op].kind] : n.t == 'U' ? un[n.op] : bn[n.op];
+}
+static std::string shallow_class(const Ast &a, const Menu &m, int i)
+{
+    const Node &n = a.n[i];
+    if (n.t == 'L')
+        return kind1(a, m, i) + ":" + m.leaves[n.op].text;
+    std::string o = kind1(a, m, i) + "(" + kind1(a, m, n.a);
+    if (n.t == 'B')
+        o += "," + kind1(a, m, n.b);
+    return o + ")";
+}
+
 static void run_space(Space &sp)
 {
     CaseSet cs;
@@ -588,8 +638,10 @@ static void run_space(Space &sp)
                     }
                 }
                 c.count(K_MISMATCH_STRINGS);
-                if (first_of_class("mismatch:" + skel_class(a, m, a.root) + (paren ? ":allparen" : "")))
-                    c.violation("mismatch:" + skel_class(a, m, a.root) + (paren ? ":allparen" : ""),
+                int mn = shrink(a, m, a.root);
+                std::string msig = "mismatch:" + shallow_class(a, m, mn) + ((mn == a.root && paren && !sub_fails(a, m, a.root)) ? ":only-fully-parenthesised" : "");
+                if (first_of_class(msig))
+                    c.violation(msig,
                             "parse(" + jstr(s) + ") = " + gots + "; direct construction from the AST gives " + wants);
             }
         }
